@@ -262,7 +262,7 @@ def values_problem(vals, distinct, what):
 
 def main(ctx):
     # every lattice part once more under FP traps + warnings-as-errors (clean on the unchanged tree, see DESIGN section 0)
-    ctx.envstrict_all = True
+    ctx.envstrict_all = "small"
     from esutil import numpy_util as nu
 
     ALPHA = alphabets(ctx.seed)
